@@ -377,8 +377,9 @@ class Repo:
             except SyntaxError as e:
                 raise AnalysisError(f"cannot parse {rel}: {e}")
             if os.environ.get("TLSA_NO_LIFT") != "1":
-                from .normalise import append_loop_to_comprehension, build_literal_dict, counted_while_to_for, expand_dict_dispatch, expand_keyword_splat, fill_loop_to_dict, filter_map_to_comprehension, fold_dict_lookup, inline_named_conditions, lambda_lift, lookup_else_default, search_loop_to_membership, select_callable, unpack_by_attribute, unpack_literal_comprehension, unroll_table_loops
+                from .normalise import append_loop_to_comprehension, append_readback, build_literal_dict, counted_while_to_for, expand_dict_dispatch, expand_keyword_splat, fill_loop_to_dict, filter_map_to_comprehension, fold_dict_lookup, inline_named_conditions, lambda_lift, lookup_else_default, search_loop_to_membership, select_callable, unpack_by_attribute, unpack_literal_comprehension, unroll_table_loops
 
+                append_readback(tree)
                 filter_map_to_comprehension(tree)
                 lookup_else_default(tree)
                 select_callable(tree)
